@@ -18,12 +18,13 @@ import (
 )
 
 type vnOp struct {
-	Kind string `json:"kind"` // write | reply | pause | expire
-	DNS  bool   `json:"dns"`
-	Ms   int    `json:"ms"`
-	Fail bool   `json:"fail"` // write: the outbound socket refuses the send
-	FailRelay bool `json:"fail_relay"` // reply: sending it on to the client fails (datagram too large for the client's path, ...)
-	Hold bool   `json:"hold"` // reply: the relay to the client is still in progress while the next operation (a write) happens
+	Kind      string `json:"kind"` // write | reply | pause | expire
+	DNS       bool   `json:"dns"`
+	V6        bool   `json:"v6"` // the peer (DNS server or other target) has an IPv6 address
+	Ms        int    `json:"ms"`
+	Fail      bool   `json:"fail"`       // write: the outbound socket refuses the send
+	FailRelay bool   `json:"fail_relay"` // reply: sending it on to the client fails (datagram too large for the client's path, ...)
+	Hold      bool   `json:"hold"`       // reply: the relay to the client is still in progress while the next operation (a write) happens
 }
 
 type vnReq struct {
@@ -215,6 +216,8 @@ func vnRun(req vnReq) (resp vnResp) {
 	entry := nm.Add(clientAddr, cc, key, fc, "key id")
 	dnsAddr := &net.UDPAddr{IP: net.IPv4(192, 0, 2, 53), Port: 53}
 	webAddr := &net.UDPAddr{IP: net.IPv4(192, 0, 2, 80), Port: 443}
+	dnsAddr6 := &net.UDPAddr{IP: net.ParseIP("2001:db8::53"), Port: 53}
+	webAddr6 := &net.UDPAddr{IP: net.ParseIP("2001:db8::80"), Port: 443}
 	var release func() // finishes a held relay
 	for i, op := range req.Ops {
 		fc.mu.Lock()
@@ -226,8 +229,13 @@ func vnRun(req vnReq) (resp vnResp) {
 		switch op.Kind {
 		case "write":
 			to := webAddr
-			if op.DNS {
+			switch {
+			case op.DNS && op.V6:
+				to = dnsAddr6
+			case op.DNS:
 				to = dnsAddr
+			case op.V6:
+				to = webAddr6
 			}
 			fc.mu.Lock()
 			fc.failNext = op.Fail
@@ -235,8 +243,13 @@ func vnRun(req vnReq) (resp vnResp) {
 			entry.WriteTo([]byte("payload"), to)
 		case "reply":
 			from := net.Addr(webAddr)
-			if op.DNS {
+			switch {
+			case op.DNS && op.V6:
+				from = dnsAddr6
+			case op.DNS:
 				from = dnsAddr
+			case op.V6:
+				from = webAddr6
 			}
 			before := cc.tried()
 			cc.mu.Lock()
